@@ -30,6 +30,16 @@ DELIMS = [
 TAGNAMES = [("time-limited", "removal-marker"), ("tl", "rm"), ("期限", "目印"), ("a", "b")]
 
 
+def offset_minutes(off):
+    """minutes east of UTC of a '+HH:MM' / '+HHMM' offset string (0 when it is not of that form)"""
+    import re as _re
+    m = _re.fullmatch(r"([+-])(\d\d):?(\d\d)", off or "")
+    if not m:
+        return 0
+    v = int(m.group(2)) * 60 + int(m.group(3))
+    return -v if m.group(1) == "-" else v
+
+
 def hx(s):
     b = s.encode("utf-8") if isinstance(s, str) else bytes(s)
     return b.hex() if b else "-"
